@@ -46,3 +46,14 @@ Lemma shipped_spdx_excluded_unknown :
                      end)
            shipped_index) = true.
 Proof. rewrite spdx_result_eq. vm_compute. reflexivity. Qed.
+
+(* no name of the two tables holds an operator word or a parenthesis, and every name has words *)
+Lemma shipped_scancode_opfree :
+  names_opfree_b ascii_oracle (table_of (build_licensing ascii_oracle shipped_index)) = true /\
+  names_have_words_b ascii_oracle (table_of (build_licensing ascii_oracle shipped_index)) = true.
+Proof. rewrite scancode_result_eq. split; vm_compute; reflexivity. Qed.
+
+Lemma shipped_spdx_opfree :
+  names_opfree_b ascii_oracle (table_of (build_spdx_licensing ascii_oracle shipped_index)) = true /\
+  names_have_words_b ascii_oracle (table_of (build_spdx_licensing ascii_oracle shipped_index)) = true.
+Proof. rewrite spdx_result_eq. split; vm_compute; reflexivity. Qed.
